@@ -119,6 +119,13 @@ def main():
             if not ok:
                 rep.violation("harness-build-failed", {"output": msg}, found_input=False)
                 return rep.finish()
+            gone, err = core.excluded_ops_for(pid)
+            if gone:
+                rep.violation("harness-build-failed", {"modules": gone, "output": err[-3000:],
+                                                       "what": "the harness ops this property's check drives no longer compile against /repo's sources "
+                                                               "(an observed function changed its signature): the correspondence cannot be run"},
+                              found_input=False)
+                return rep.finish()
             ok, msg = core.build_lean(("bbdriver",))
             if not ok:
                 rep.violation("lean-build-failed", {"output": msg}, found_input=False)
